@@ -139,6 +139,8 @@ func c11Funcs(t tableRow) bool {
 }
 
 func runC11(r *Run) {
+	r.PureShapes([]string{"vm/embedded/implementation.getWeightedStakeAmount", "vm/embedded/implementation.getWeightedStake", "vm/embedded/implementation.getWeightedSentinel", "vm/embedded/implementation.getWeightedLiquidityStake", "vm/embedded/implementation.getWeightedLiquidityStakeAmount", "vm/embedded/implementation.computePillarRewardForEpoch"},
+		"the pro-rata weights and the per-pillar reward are computed by these helpers: a changed operand changes every share")
 	I := "vm/embedded/implementation."
 	// (1) cursor
 	r.FieldWriters("vm/embedded/definition", "LastEpochUpdate", "LastEpoch", []string{I + "checkAndPerformUpdateEpoch", "vm/embedded/definition.*", "chain/genesis.*"}, "only the guarded cursor function advances the epoch cursor")
